@@ -98,9 +98,9 @@ Theorem roundtrip_ignores_methods : forall m m' t,
   /\ ty_ok (TNamed m t) = ty_ok (TNamed m' t).
 Proof. exact named_ignores_methods. Qed.
 
-(* ... and, for the kinds the serializer accepts under a named type (strings,
-   enums, decimal text, large / fixed-size binaries), exactly those of the
-   UNDERLYING type: the round trip is the identity on the underlying value
+(* ... and, for every leaf kind (integers, floats, bool, strings, enums,
+   decimal text, binaries, date / timestamp / time / duration), exactly those of
+   the UNDERLYING type: the round trip is the identity on the underlying value
    (value_survives covers TNamed through ty_ok). *)
 Theorem named_type_is_its_underlying_value : forall m t,
   named_enc_ok t = true ->
@@ -108,18 +108,22 @@ Theorem named_type_is_its_underlying_value : forall m t,
   /\ (forall x, trunc (TNamed m t) x = trunc t x) /\ arrow_of (TNamed m t) = arrow_of t.
 Proof. exact named_as_underlying. Qed.
 
-(* FINDING (current code): a named integer / float / bool, or a named []byte in
-   a plain binary column, derives a schema and decodes, but the serializer
-   refuses every value of it (toInt64 / toUint64 / toFloat64 / the BOOL and
-   BINARY cases switch on the exact Go type, not on the Kind). *)
-Theorem named_kind_refused_refuted : forall m,
-  (forall g a z, enc (TNamed m (TInt g a)) (GInt z) = None)
-  /\ (forall b, enc (TNamed m TBool) (GBool b) = None)
-  /\ (forall is64 b, enc (TNamed m (TFlt is64)) (GFlt b) = None)
-  /\ (forall np b, enc (TNamed m (TBin BBin)) (GBytes np b) = None)
-  /\ val_ok (TNamed m (TInt I32 I32)) (GInt 5) = true
-  /\ dec (TNamed m (TInt I32 I32)) (WInt 5) = Some (GInt 5).
-Proof. exact named_kind_refused. Qed.
+(* Repaired by d741a8f: before it the serializer refused every value of a named
+   integer / float / bool and of a named []byte in a plain binary column
+   (exact-type switches), and a named time / duration field could not be decoded. *)
+Theorem named_kind_refused_legacy_refuted : forall m,
+  (forall g a z, enc_named_legacy (TInt g a) (GInt z) = None)
+  /\ (forall b, enc_named_legacy TBool (GBool b) = None)
+  /\ (forall is64 b, enc_named_legacy (TFlt is64) (GFlt b) = None)
+  /\ (forall np b, enc_named_legacy (TBin BBin) (GBytes np b) = None)
+  /\ (forall w, dec_named_legacy TDur w = None)
+  /\ (ty_ok (TNamed m (TInt I32 I32)) = true /\ val_ok (TNamed m (TInt I32 I32)) (GInt 5) = true
+      /\ enc_named_legacy (TInt I32 I32) (GInt 5) = None
+      /\ obind (dec (TNamed m (TInt I32 I32))) (enc (TNamed m (TInt I32 I32)) (GInt 5)) = Some (GInt 5))
+  /\ (val_ok (TNamed m TDur) (GDur 7000) = true
+      /\ obind (dec_named_legacy TDur) (enc_named_legacy TDur (GDur 7000)) = None
+      /\ obind (dec (TNamed m TDur)) (enc (TNamed m TDur) (GDur 7000)) = Some (GDur 7000)).
+Proof. exact named_kind_refused_legacy. Qed.
 
 (* the derived schema is a function of the field type *)
 Theorem schema_is_function : forall t1 t2, t1 = t2 -> arrow_of t1 = arrow_of t2.
@@ -167,7 +171,9 @@ Example premises_satisfiable :
                     TMap (TInt I32 I32) (TPtr (TStr SUtf8)); TTs UMilli false; TTs UNano false; TTs USec false;
                     TMap (TNamed (Build_meths true false false false false) (TStr SUtf8))
                          (TPtr (TNamed (Build_meths false true false true true) (TStr SUtf8)));
-                    TList (TNamed (Build_meths true false false false false) (TStr SEnum))] in
+                    TList (TNamed (Build_meths true false false false false) (TStr SEnum));
+                    TList (TPtr (TNamed (Build_meths true false false false false) (TInt I32 I16)));
+                    TNamed (Build_meths true false false false false) TDur] in
   let x := GStruct [GInt (-5); GNil; GList true [GNil; GPtr (GTime (-43200) 999)];
                     GMap false [(GBytes false (str "k"), GList false [GInt 65535])];
                     GStruct [GTime (-62135596800) 1999; GTime 86399 999999999; GDur (-1999);
@@ -175,6 +181,7 @@ Example premises_satisfiable :
                     GMap true [(GInt 7, GNil); (GInt 9, GPtr (GBytes false (str "v")))];
                     GTime (-43200) 999999999; GTime (-9223372037) 145224192; GTime (-62135596800) 5;
                     GMap false [(GBytes false (str "high"), GNil); (GBytes false (str "low"), GPtr (GBytes false (str "x")))];
-                    GList false [GBytes false (str "high"); GBytes false []]] in
+                    GList false [GBytes false (str "high"); GBytes false []];
+                    GList false [GNil; GPtr (GInt (-32768))]; GDur (-1)] in
   ty_ok t = true /\ val_ok t x = true /\ trunc t x <> x.
 Proof. repeat split; try (vm_compute; reflexivity). vm_compute. discriminate. Qed.
